@@ -1,23 +1,8 @@
 //! vf-engine: property-based verification engine for RustFFT (see /verif/DESIGN.md)
 #![allow(dead_code)]
-mod checks;
-mod checks2;
-mod checks3;
-mod checks4;
-mod gfp;
-mod numtypes;
-mod dd;
-mod exec;
-mod gen;
-mod guard;
-mod plantext;
-mod props;
-mod refdft;
-mod runner;
-mod trees;
-mod types;
 
-use runner::Tier;
+use vf_engine::runner::Tier;
+use vf_engine::*;
 use std::time::Instant;
 
 fn arg_after(args: &[String], flag: &str) -> Option<String> {
@@ -127,6 +112,18 @@ fn main() {
                 }
             }
             0
+        }
+        "fuzz-decode" => {
+            let which: u8 = args[2].parse().unwrap_or(0);
+            let data = std::fs::read(&args[3]).unwrap_or_default();
+            match fuzzdec::decode(&data, which) {
+                Some(mut c) => {
+                    c.variant = "chk".into();
+                    println!("{}", c.to_json());
+                    0
+                }
+                None => 2,
+            }
         }
         "selfcheck" => match refdft::self_check(seed) {
             Ok((a, b)) => {
